@@ -30,6 +30,11 @@ claimed = {
   "note": NOTE_COMMON + "Model of reportDecodeError of every class, buildUnionError/maxErrorDepth/dedup (JSON.stringify modelled incl. ISO dates, bigint replacer), err.ts printErrors.",
   "technique": "Lean 4 proof (bounds, shape lemmas, decide +kernel witnesses) + verbatim error-tree correspondence + JS path/received oracle",
   "design": "§5 C12", "engines": ["lean-model", "js-host"]},
+ "C01": {
+  "text": "Three-way decision on the TsCore fragment (aliases, generics, interfaces/extends, recursion, unions incl. discriminated/literal, intersections, tuples with rest, index signatures, Record/Partial/Required/Pick/Omit/Readonly, Date/Map/Set/typed arrays, template literals): a Lean model of the compiler (frontend lowering with named definitions and the type-application stack → any_of/all_of → printer incl. literal-set and discriminator dispatch → runtime validate) and an independent declarative Lean reference semantics ⟦·⟧ᵀˢ (readings S1–S6). Proved in Lean: every keyword type and every string/number/boolean literal type is exact for EVERY value through the real model chain (keyword_types_exact, *_literal_exact), the literal-set dispatch is invisible (consts_eq_union_of_consts, all literal lists), paren/readonly invisibility; negations for the two known deviations D21/D22 and a regression witness for the repaired D12. The inductive step over all constructors (C01_main) is NOT yet proved and is decided by correspondence: real compiler + real runtime vs compiler model (tie) and vs the reference (search) on generated programs and type-directed values.",
+  "note": NOTE_COMMON + "Models of frontend/mod.rs, ast/runtype.rs, print/printer.rs for the fragment; swc parser and the harness' TypeScript printer trusted; constructs outside the fragment are covered by C05/C07/C09 only.",
+  "technique": "Lean 4 proof (base cases of the compile chain, printer lemma by induction on the literal list, decide +kernel witnesses) + three-way correspondence compiler/model/reference",
+  "design": "§5 C01", "engines": ["lean-model", "beffh", "js-host"]},
 }
 pending_reason = "not yet built in this round (planned: DESIGN.md §5/§8); no claim is made until its model, theorems and correspondence check exist"
 m = {"version": 1, "setup_cmd": "bin/setup",
